@@ -1,5 +1,7 @@
 package main
 
+import "strings"
+
 // Fact tables are registered per property in facts_cNN.go files (one file per property so that
 // they can be edited independently). One group = one generated Lean file lean/Karp/Gen/<Group>.lean;
 // keep each group small so that a change rebuilds only what depends on it.
@@ -28,6 +30,13 @@ func register(pkgs []string, emit func(g *gen)) {
 
 func emitFacts(g *gen) {
 	for _, e := range factEmitters {
+		g.cur = nil
+		start := len(g.errs)
 		e(g)
+		// an extraction error concerns the groups this emitter writes: `check` only holds it against the properties whose
+		// Lean modules import one of them
+		for i := start; i < len(g.errs); i++ {
+			g.errs[i] = "[groups=" + strings.Join(g.cur, ",") + "] " + g.errs[i]
+		}
 	}
 }
